@@ -460,6 +460,15 @@ func Lock(site string, l tryLocker) {
 	}
 }
 
+// LockLocker is Lock for a sync.Locker value (e.g. the L of a sync.Cond).
+func LockLocker(site string, l sync.Locker) {
+	if tl, ok := l.(tryLocker); ok {
+		Lock(site, tl)
+		return
+	}
+	l.Lock()
+}
+
 // RLock is Lock for the read side of a sync.RWMutex.
 func RLock(site string, l tryRLocker) {
 	if get() == nil || self() == nil {
